@@ -277,11 +277,13 @@ class MembershipProtocol(Entity):
         if target_name is None or target_name not in self._members:
             return []
 
-        self._members[target_name]
-
         # If we already got an ack, skip
         if target_name not in self._pending_acks:
             return []
+
+        # The direct probe was not acknowledged in time: suspect the target
+        # (a no-op unless it is currently ALIVE).
+        self._suspect_member(self._members[target_name], self.now.to_seconds())
 
         # Pick random delegates (excluding self and target)
         delegates = [
